@@ -87,4 +87,44 @@ class HandlerSubs:
         return h
 
 
-PARTS = [Core, HandlerSubs]
+class VissSubs:
+    """change subscriptions opened over the VISS websocket among writes through every API: the events a VISS subscriber receives are rewritten into the core's messages and judged by the same C07 clauses (one event per committed change of the subscribed signal, every write of a continuous signal, none for rejected or repeated on-change writes)"""
+    FAM = 20
+    CROSS_MAX = 0
+
+    @staticmethod
+    def generate(rng, tier):
+        from .. import viss as VI
+        n = 60 if tier == "quick" else 1500
+        return [("vs%d" % i, VI.gen_case(rng, open_mode=(i % 6 == 5))) for i in range(n)]
+
+    @staticmethod
+    def compare(lines, m, i):
+        from . import c20
+        return c20.compare(lines, m, i)
+
+    @staticmethod
+    def monitor(lines, out):
+        from .. import viss as VI
+        return [f for f in VI.monitor(lines, out) if f.startswith(("C20-events", "C20-shared(C07", "C20-unsubscribe"))]
+
+    @staticmethod
+    def nontrivial(lines, out):
+        return hash(tuple(map(tuple, lines)))
+
+    @staticmethod
+    def histogram(lines, out):
+        from . import c20
+        return ["viss:" + h for h in c20.histogram(lines, out) if h.startswith("V")]
+
+    @staticmethod
+    def pretty(lines):
+        from .. import viss as VI
+        return VI.pretty(lines)
+
+    @staticmethod
+    def neighbours(lines, rng):
+        return []
+
+
+PARTS = [Core, HandlerSubs, VissSubs]
